@@ -79,7 +79,7 @@ package document
 //@ spec lastSect(es []any, j int) *SectionProperties = ite(j <= 0, nil, ite(isSect(es[j-1]), es[j-1].(*SectionProperties), lastSect(es, j - 1)))
 
 //@ func (*Body).MarshalXML
-//@ props C08
+//@ props C08, C03
 //@ requires b != nil && e != nil
 //@ modifies nothing
 //@ ensures err == nil ==> encCount() == old(encCount() + nonSect(b.Elements, len(b.Elements)) + ite(lastSect(b.Elements, len(b.Elements)) != nil, 1, 0))
